@@ -220,7 +220,7 @@ MANIFESTS = [
 def e2e_cases(ctx, rng, count):
     out = []
     for i in range(count):
-        stream = ["bbb", "tears", "syn1", "syn2", "syn3", "syn4", "syn5", "syn7", "syn8", "syn9"][i % 10]
+        stream = ["bbb", "tears", "syn1", "syn2", "syn3", "syn4", "syn5", "syn7", "syn8", "syn9", "syn10"][i % 11]
         man, q = MANIFESTS[(i // 5) % len(MANIFESTS)]
         opts = [q] if q else []
         start = rng.choice(["epoch", "year", "month", "today", "explicit"])
@@ -268,7 +268,7 @@ def e2e_cases(ctx, rng, count):
                             ("playready__piff", ["0", "1"], .15 if stream == "bbb" else 0)):
             if rng.random() < p_:
                 opts.append(f"{k}={rng.choice(vals)}")
-        if stream == "syn9" and (i // 10) % 2 == 0 and not young:
+        if stream == "syn9" and (i // 11) % 2 == 0 and not young:
             # start, depth and leeway come from the stream's stored defaults only
             opts = [o for o in opts if not o.startswith(("start=", "depth=", "leeway=", "mup="))]
             if now.year < 2023:
@@ -283,7 +283,7 @@ def e2e_cases(ctx, rng, count):
             out.append((other, url.replace(f"/{stream}/", f"/{other}/", 1), now))
     # fixed grid: every synthetic layout in its first pass through the media (loop origin 0), by $Number$ and by
     # $Time$, at two ages – what a served segment carries must not depend on a later wrap having happened
-    for k, stream in enumerate(["syn9", "syn1", "syn8", "syn3", "syn5", "syn2"]):
+    for k, stream in enumerate(["syn9", "syn1", "syn8", "syn3", "syn5", "syn2", "syn10"]):
         for q in ("", "timeline=1"):
             for age in (7, 16):
                 now = datetime.datetime(2024, 3, 1 + k, 10, 20, 30, 250000 * (age % 4), tzinfo=datetime.timezone.utc)
@@ -336,7 +336,7 @@ def ch_segserve(ctx) -> Channel:
     leeway_us = int(OptionsRepository.get_default_options().leeway) * 10 ** 6
     lines, recs = [], []
     with appboot.Clock("2023-01-01T00:00:00Z") as clock:
-        for stream, url, now in e2e_cases(ctx, rng, ctx.scale(40, 500)):
+        for stream, url, now in e2e_cases(ctx, rng, ctx.scale(44, 500)):
             trk = segchecks.tracks(app, stream)
             mpd, status, fetches = segchecks.walk_manifest(app, client, clock, stream, url, now, rng,
                                                            per_rep=ctx.scale(6, 14), want_init=True)
